@@ -135,26 +135,34 @@ type listener struct {
 
 func (l *listener) Accept() (transport.Pipe, error) {
 
-	if l.l == nil {
+	l.lock.Lock()
+	lis := l.l
+	l.lock.Unlock()
+	if lis == nil {
 		return nil, mangos.ErrClosed
 	}
 	return l.handshaker.Wait()
 }
 
 func (l *listener) Listen() (err error) {
+	// The lock is held across the closed check and the bind, so that
+	// a concurrent Close either sees the listener or prevents it.
+	l.lock.Lock()
+	defer l.lock.Unlock()
 	select {
 	case <-l.closeq:
 		return mangos.ErrClosed
 	default:
 	}
-	l.l, err = l.lc.Listen(context.Background(), "tcp", l.addr)
+	lis, err := l.lc.Listen(context.Background(), "tcp", l.addr)
 	if err != nil {
 		return
 	}
-	l.bound = l.l.Addr()
+	l.l = lis
+	l.bound = lis.Addr()
 	go func() {
 		for {
-			conn, err := l.l.Accept()
+			conn, err := lis.Accept()
 			if err != nil {
 				select {
 				case <-l.closeq:
@@ -179,7 +187,10 @@ func (l *listener) Listen() (err error) {
 }
 
 func (l *listener) Address() string {
-	if b := l.bound; b != nil {
+	l.lock.Lock()
+	b := l.bound
+	l.lock.Unlock()
+	if b != nil {
 		return "tcp://" + b.String()
 	}
 	return "tcp://" + l.addr
@@ -187,9 +198,12 @@ func (l *listener) Address() string {
 
 func (l *listener) Close() error {
 	l.once.Do(func() {
+		l.lock.Lock()
 		close(l.closeq)
-		if l.l != nil {
-			_ = l.l.Close()
+		lis := l.l
+		l.lock.Unlock()
+		if lis != nil {
+			_ = lis.Close()
 		}
 		l.handshaker.Close()
 	})
